@@ -12,6 +12,7 @@ import MitmVerif.Lemmas.C05_Map
 import MitmVerif.Lemmas.C05_Sub
 import MitmVerif.Lemmas.C05_C03Run
 import MitmVerif.Lemmas.C05_Bytes
+import MitmVerif.Lemmas.C05_First
 namespace MitmVerif.Props.C05
 open MitmVerif MitmVerif.C05
 
@@ -324,5 +325,48 @@ theorem upstream_bytes_prefix_of_submitted (σ : St) (h : Reach σ) (hc : σ.clo
   have c := ((reach_inv σ h).live hc).cons t
   rw [← c, List.append_assoc, dataBytes_append]
   exact (upstream_bytes_own_stream σ h t o ho).2.1.trans (List.prefix_append _ _)
+
+/-! ### `Good` discharged too -/
+
+private theorem isHdr_shape (e : Ev) : (shape e).isHdr = e.isHdr := by cases e <;> rfl
+
+/-- a client stream is unknown to `Http2Client` (no upstream id, not queued) exactly when nothing was handed over for it -/
+theorem fresh_iff_nothing_handed_over (σ : St) (h : Reach σ) (hc : σ.closed = false) (t : Nat) :
+    (alookup t σ.ours = none ∧ t ∉ qkeys σ) ↔ evsOf t σ.sub = [] :=
+  fresh_iff_nothing_submitted σ h hc t
+
+/-- `Good` discharged: if what the client model was handed for stream `t`, followed by the next event, is — payloads
+    aside — the beginning of what some run of the `HttpStream` model hands to the server connection, the next event is
+    the request head exactly when the stream is new.  Together with `good2_from_httpstream`: both hypotheses of `Reach2`
+    are properties of the C03 model. -/
+theorem good_from_httpstream (σ : St) (h : Reach σ) (hc : σ.closed = false) (t : Nat) (ev : Ev) (l tt : Nat)
+    (evs : List C03.Ev) (post : List Ev)
+    (hsrc : C03.srvEvents (C03.run l tt evs).trace = (evsOf t σ.sub ++ ev :: post).map shape) : Good σ t ev := by
+  have hf := fresh_iff_nothing_submitted σ h hc t
+  have hh := (httpstream_hands_over_in_order l tt evs).2
+  rw [hsrc] at hh
+  have hne : (evsOf t σ.sub ++ ev :: post).map shape ≠ [] := by simp
+  rcases hh with hh | hh
+  · exact absurd hh hne
+  · obtain ⟨fin, rest, he, hr⟩ := hh
+    unfold Good
+    constructor
+    · intro hfr
+      have hpre := hf.mp hfr
+      rw [hpre] at he
+      simp only [List.nil_append, List.map_cons, List.cons.injEq] at he
+      rw [← isHdr_shape, he.1]; rfl
+    · intro hev
+      apply hf.mpr
+      cases hp : evsOf t σ.sub with
+      | nil => rfl
+      | cons p ps =>
+        exfalso
+        rw [hp] at he
+        simp only [List.cons_append, List.map_cons, List.cons.injEq] at he
+        have hmem : shape ev ∈ rest := by rw [← he.2]; simp
+        have := hr _ hmem
+        rw [isHdr_shape, hev] at this
+        cases this
 
 end MitmVerif.Props.C05
